@@ -51,4 +51,21 @@ PROPS = {
              [("vest", 300, 5000), ("split", 60, 600)],
              {"v.send": ["acct", "bal", "pools"], "v.createVA": ["acct", "bal", "pools"], "v.q.locked": "*"},
              exact_ops=["v.send", "v.createVA"]),
+    "C09": P(["C4E.Props.C09"], ["C4E.Props.C09"],
+             [("vest", 300, 4000), ("split", 120, 1500)],
+             {"v.send": ["acct"], "v.createVA": ["acct"], "v.split": ["acct"], "v.move": ["acct"], "v.moveDenoms": ["acct"],
+              "v.createPool": ["acct"], "v.withdraw": ["acct"]}),
+    "C17": P(["C4E.Props.C17"], ["C4E.Props.C17"],
+             [("split", 300, 5000), ("vest", 100, 1000)],
+             {"v.send": ["tr", "cnt"], "v.split": ["tr", "cnt"], "v.move": ["tr", "cnt"], "v.moveDenoms": ["tr", "cnt"],
+              "v.createVA": ["tr", "cnt"], "v.q.summary": "*"},
+             exact_ops=["v.q.summary", "v.split", "v.move", "v.moveDenoms", "v.send"]),
+    "C18": P(["C4E.Props.C18"], ["C4E.Props.C18"],
+             [("minter", 150, 2000), ("distr", 150, 2000), ("vest", 200, 3000)],
+             {"m.block": ["amt", "ev"], "d.bb": ["ev"], "v.withdraw": ["paid", "ev"], "v.send": ["ev"]},
+             exact_ops=["m.block", "d.bb", "v.withdraw"]),
+    "C19": P(["C4E.Props.C19"], ["C4E.Props.C19"],
+             [("minter", 400, 6000)],
+             {"m.block": ["amt", "infl", "supply"], "m.infl": "*"},
+             exact_ops=["m.block", "m.infl"]),
 }
